@@ -147,6 +147,27 @@ def translate(log, rel, notes):
     return steps
 
 
+class fsize_limit:
+    """with fsize_limit(n): a REAL operating-system fault — RLIMIT_FSIZE (soft) = n bytes, so write(2) stores at
+    most the bytes up to offset n (a short write) and fails with EFBIG after that.  CPython ignores SIGXFSZ.  The
+    limit is restored on exit; the harness writes no regular file inside the block."""
+
+    def __init__(self, limit):
+        self.limit = limit
+
+    def __enter__(self):
+        if self.limit is not None:
+            import resource
+            self.old = resource.getrlimit(resource.RLIMIT_FSIZE)
+            resource.setrlimit(resource.RLIMIT_FSIZE, (self.limit, self.old[1]))
+
+    def __exit__(self, *exc):
+        if self.limit is not None:
+            import resource
+            resource.setrlimit(resource.RLIMIT_FSIZE, self.old)
+        return False
+
+
 def op_data(op) -> bytes:
     """the bytes the operation is expected to put into the target (independently of the trace)"""
     if op["api"] == "setContent":
@@ -210,12 +231,18 @@ def _run_real(d, case, i):
     if op["api"] == "setContent":
         from twisted.python.filepath import FilePath
         ext = op.get("ext", ".new")
-        FilePath(target).setContent(B(op["data"]), ext.encode() if op.get("bytes_ext") else ext)
+        ext = ext.encode() if op.get("bytes_ext") else ext
+        fp, data = FilePath(target), B(op["data"])
+        with fsize_limit(case.get("limit")):
+            fp.setContent(data, ext)
     else:
         from twisted.persisted import sob
         p = sob.Persistent(op["obj"], "app")
         p.setStyle(op["style"])
-        p.save(filename=target)
+        if op["style"] == "source":
+            from twisted.persisted import aot  # noqa: F401  (imported before the limit is in force)
+        with fsize_limit(case.get("limit")):
+            p.save(filename=target)
 
 
 def _read_real(d, case, api, style=None):
@@ -351,7 +378,11 @@ def _impl_move(case, base, other) -> str:
     src, dst = case["src"], case["dst"]
     content = B(init[src][2]) if src in init and init[src][1] == "f" else None
     old_dst = ("absent",) if dst not in init else (("content", B(init[dst][2])) if init[dst][1] == "f" else ("other",))
-    _, err, log = record(base, lambda: FilePath(_pj(live, src)).moveTo(FilePath(_pj(live, dst))), extra=(other,))
+    def do_move():
+        a, b = FilePath(_pj(live, src)), FilePath(_pj(live, dst))
+        with fsize_limit(case.get("limit")):
+            a.moveTo(b)
+    _, err, log = record(base, do_move, extra=(other,))
     rename = {}
     pat_d = re.compile(r"^.{16}" + re.escape(dst) + r"$", re.S)
     pat_s = re.compile(r"^.{16}" + re.escape(src[1:]) + r"$", re.S)
@@ -498,7 +529,7 @@ def _impl(case, base) -> str:
         shutil.copytree(replay, d2, symlinks=True)
         try:
             k = min(op_of_step[j - 1] if j else 0, len(case["ops"]) - 1)
-            rc = dict(case, ops=[case["ops"][k]])
+            rc = dict(case, ops=[case["ops"][k]], limit=None)
             try:
                 _run_real(d2, rc, 0)
             except OSError as e:
@@ -616,6 +647,28 @@ def gen(rng, tier):
                 init = [] if old is None else [["t", "f", H(old)]]
                 cases.append({"init": init, "target": "t",
                               "ops": [{"api": "setContent", "data": H(bytes(w)), "ext": ".new"}]})
+    # operating-system faults: a real RLIMIT_FSIZE below / at / above the size of the new content (short write, then
+    # EFBIG) for every API, old content absent / empty / shorter / longer than the limit
+    for _ in range(150 if quick else 2500):
+        op = _rand_op(rng)
+        if op["api"] == "setContent":
+            op["data"] = H(bytes(rng.choice([0, 10, 65, 255, rng.randrange(256)]) for _ in range(rng.randrange(1, 12))))
+        n = len(op_data(op))
+        limit = rng.choice([0, 1, max(0, n - 1), n, n + 1, rng.randrange(0, n + 2)])
+        init = []
+        r = rng.random()
+        if r < 0.7:
+            init.append(["t", "f", H(_rand_bytes(rng, rng.choice([0, 3, 9])))])
+        if op["api"] == "sob" and rng.random() < 0.3:
+            init.append(["t-2", "f", H(b"stale-temporary-longer-than-any-limit")])
+        cases.append({"init": init, "target": "t", "ops": [op], "limit": limit})
+    for _ in range(50 if quick else 800):
+        content = bytes(rng.choice([0, 65, 255, rng.randrange(256)]) for _ in range(rng.randrange(1, 10)))
+        init = [["@s", "f", H(content)]]
+        if rng.random() < 0.6:
+            init.append(["t", "f", H(_rand_bytes(rng, 5))])
+        cases.append({"kind": "move", "init": init, "src": "@s", "dst": "t",
+                      "limit": rng.choice([0, 1, len(content) - 1, len(content), len(content) + 1])})
     # FilePath.moveTo between two real file systems (EXDEV fall-back): source present / absent, destination
     # absent / a file / a directory, stale temporaries, unrelated files on both sides
     for _ in range(90 if quick else 1500):
@@ -639,6 +692,12 @@ def gen(rng, tier):
 def corpus():
     return [
         {"kind": "move", "init": [["@s", "f", H(b"payload")], ["t", "f", H(b"old")], ["@keep", "f", H(b"K")]], "src": "@s", "dst": "t"},
+        # the file-size limit is reached while the temporary is written (short write, then EFBIG)
+        {"init": [["t", "f", H(b"old content")]], "target": "t", "limit": 5,
+         "ops": [{"api": "setContent", "data": H(b"0123456789"), "ext": ".new"}]},
+        {"init": [], "target": "t", "limit": 0, "ops": [{"api": "setContent", "data": H(b"x"), "ext": ".new"}]},
+        {"init": [["t", "f", H(b"")]], "target": "t", "limit": 3, "ops": [{"api": "sob", "style": "pickle", "obj": "abcdef"}]},
+        {"kind": "move", "init": [["@s", "f", H(b"payload")], ["t", "f", H(b"old")]], "src": "@s", "dst": "t", "limit": 4},
         {"kind": "move", "init": [["@s", "f", H(b"")]], "src": "@s", "dst": "t"},
         {"kind": "move", "init": [["@s", "f", H(b"xy")], ["t", "d"]], "src": "@s", "dst": "t"},
         {"kind": "move", "init": [["t", "f", H(b"old")]], "src": "@s", "dst": "t"},
@@ -661,6 +720,12 @@ def to_coq(case):
         init = []
         for e in reversed(case["init"]):
             init.append(f"({cb(e[0])}, {'Dir' if e[1] == 'd' else 'File ' + coq_bytes(B(e[2]))})")
+        ini = {e[0]: e for e in case["init"]}
+        content = B(ini[case["src"]][2]) if case["src"] in ini and ini[case["src"]][1] == "f" else None
+        if case.get("limit") is not None and content is not None and case["limit"] < len(content):
+            # the copy's write is cut at the limit and the move raises
+            return (f"CMoveFault {coq_list([cb(n) for n in move_names(case)], 'path')} "
+                    f"{coq_list(init, '(path * node)%type')} {cb(case['src'])} {cb(case['dst'])} {cb('TD')} {case['limit']}%nat")
         return (f"CMove {coq_list([cb(n) for n in move_names(case)], 'path')} {coq_list(init, '(path * node)%type')} "
                 f"{cb(case['src'])} {cb(case['dst'])} {cb('TD')} {cb('@TS')}")
     init = []
@@ -671,6 +736,10 @@ def to_coq(case):
     for i, o in enumerate(case["ops"]):
         kind = "Exclusive" if o["api"] == "setContent" else "Truncating"
         ops.append(f"mkop {kind} {cb(op_tmp(case, i))} {coq_bytes(op_data(o))}")
+    if case.get("limit") is not None and len(case["ops"]) == 1 and case["limit"] < len(op_data(case["ops"][0])):
+        # RLIMIT_FSIZE below the size of the new content: write(2) stores [limit] bytes, then EFBIG
+        return (f"CFault {coq_list([cb(n) for n in names(case)], 'path')} {coq_list(init, '(path * node)%type')} "
+                f"{cb(case['target'])} ({ops[0]}) {case['limit']}%nat")
     return (f"CRepl {coq_list([cb(n) for n in names(case)], 'path')} {coq_list(init, '(path * node)%type')} "
             f"{cb(case['target'])} {coq_list(ops, 'op')}")
 
@@ -699,7 +768,7 @@ SPEC = Spec(
     to_coq=to_coq,
     model_equal=model_equal,
     nontrivial=lambda c, o: o.count(";") > 4,
-    histogram=lambda c, o: "moveTo" if c.get("kind") == "move" else "+".join(x["api"] for x in c["ops"]) + (":target-exists" if any(e[0] == c["target"] for e in c["init"]) else ":target-absent"),
+    histogram=lambda c, o: ("fault:" if c.get("limit") is not None else "") + "moveTo" if c.get("kind") == "move" else ("fault:" if c.get("limit") is not None else "") + "+".join(x["api"] for x in c["ops"]) + (":target-exists" if any(e[0] == c["target"] for e in c["init"]) else ":target-absent"),
     rule="histories of 1-3 replacements (FilePath.setContent with several extensions, sob.Persistent.save in pickle "
          "and source style) over targets that are absent / an existing file / a directory, with and without a stale "
          "temporary (file or directory) and an unrelated file; contents of length 0-6 incl. NUL, LF, 0xff; plus every "
